@@ -38,6 +38,11 @@ type cdRec struct {
 	failMsg   error
 	failBytes []byte
 	calls     int
+	// memo: the inner codec keeps its output buffer (with spare capacity, as a
+	// pooling or memoising codec would) and hands the same slice out again while
+	// the message is unchanged; whoever receives it may read it, not write into it
+	memo    bool
+	memoBuf []byte
 }
 
 func (r *cdRec) Marshal(v interface{}) ([]byte, error) {
@@ -47,9 +52,18 @@ func (r *cdRec) Marshal(v interface{}) ([]byte, error) {
 		r.last, r.lastErr = r.failBytes, r.failMsg
 		return r.failBytes, r.failMsg
 	}
+	if r.memo && r.memoBuf != nil {
+		r.lastErr = nil
+		return r.memoBuf, nil
+	}
 	b, err := r.inner.Marshal(v)
 	r.last = append([]byte(nil), b...)
 	r.lastErr = err
+	if r.memo && err == nil {
+		r.memoBuf = make([]byte, len(b), len(b)+32)
+		copy(r.memoBuf, b)
+		return r.memoBuf, nil
+	}
 	return b, err
 }
 func (r *cdRec) Unmarshal(d []byte, v interface{}) error { return r.inner.Unmarshal(d, v) }
@@ -269,6 +283,7 @@ func TestVerifCodec(t *testing.T) {
 			continue
 		}
 		m, kind := cdMessage(rng)
+		rec.memo = idx%4 == 1
 		orig := proto.Clone(m)
 		lg := []string{fmt.Sprintf("message kind=%s size=%d", kind, proto.Size(m))}
 		var got []byte
@@ -364,6 +379,22 @@ func TestVerifCodec(t *testing.T) {
 					}
 				}
 			}
+		}
+		if rec.memo {
+			// the unchanged message once more: the inner codec hands out its kept buffer again
+			var got1b []byte
+			var err1b error
+			hb := vStartOp(func() { got1b, err1b = c.Marshal(m) })
+			if st := hb.awaitDone(60e9); st != vDone || hb.panicked {
+				report(idx, "C19.panic", "memo", fmt.Sprintf("second Marshal (memoising inner codec) panicked or hung: %v %s", hb.pval, st), lg)
+				continue
+			}
+			out.hit("C19.memoising-inner-codec")
+			if err1b != nil || !bytes.Equal(got1b, want) {
+				report(idx, "C19.wire-format", "memoising-inner-codec", fmt.Sprintf("the inner codec returned its kept %d-byte buffer (capacity %d) again for the unchanged message: second output %x.. differs from the first %x.. (the first Marshal wrote into the inner codec's buffer)", len(b), cap(rec.memoBuf), got1b[:cdMin(len(got1b), 10)], want[:cdMin(len(want), 10)]), lg)
+				continue
+			}
+			rec.memoBuf = nil // the message is about to change
 		}
 		// the same codec and the same message object again, after the application changed
 		// the message: the output must be the encoding of the message as it is now
